@@ -9,7 +9,8 @@ use std::collections::BinaryHeap;
 
 #[derive(Clone, Debug)]
 pub enum Ev {
-    /// corrupted: 0 intact, 1 checksum-detectable damage, 2 structurally impossible, 3 neutral damage
+    /// corrupted: 0 intact, 1 checksum-detectable damage, 2 structurally impossible, 3 neutral damage,
+    /// 4 UDP-over-IPv6 checksum field zeroed (detectable: "no checksum" exists for IPv4 only)
     Arrive { to: usize, frame: Vec<u8>, corrupted: u8, pkt: Option<Box<Packet>> },
     Deadline { node: usize, generation: u64 },
     App { node: usize },
@@ -255,7 +256,13 @@ impl World {
         if t.chance(p.corrupt, 1000) {
             if self.link.corrupt_ok[to] {
                 if let Some((c, class)) = corrupt(&frame, self.views[from].medium, t) {
-                    self.stats.inc(if class == 1 { "fault.corrupt-checksum-detectable" } else { "fault.corrupt-neutral-or-structural" });
+                    self.stats.inc(if class == 1 {
+                        "fault.corrupt-checksum-detectable"
+                    } else if class == 4 {
+                        "fault.corrupt-udp6-checksum-zeroed"
+                    } else {
+                        "fault.corrupt-neutral-or-structural"
+                    });
                     let d = delay(t, self);
                     self.log(|| format!("link: corrupted (class {})", class));
                     // class 3 (damage in an unprotected, meaning-free field) is still the same packet
@@ -334,6 +341,18 @@ pub fn corrupt(frame: &[u8], medium: Medium, t: &mut Tape) -> Option<(Vec<u8>, u
         return None;
     }
     let mut c = frame.to_vec();
+    // UDP over IPv6 with the checksum field zeroed: "no checksum" exists for IPv4 only, an independent
+    // implementation does not verify it, so it is a class-1 frame as well
+    if let (Some(ip), Some(codec::L4::Udp(_))) = (&orig.ip, &orig.l4) {
+        if ip.v4.is_none() && ip.hdr_len == 40 && frame.len() >= l2 + 48 && t.draw(30) == 29 {
+            c[l2 + 46] = 0;
+            c[l2 + 47] = 0;
+            return match lenient_decode(medium, &c) {
+                Err(LenientErr::Checksum) => Some((c, 4)),
+                _ => None,
+            };
+        }
+    }
     let nbits = 1 + t.draw(2);
     for _ in 0..nbits {
         let pos = l2 + t.draw((frame.len() - l2) as u64) as usize;
@@ -345,6 +364,8 @@ pub fn corrupt(frame: &[u8], medium: Medium, t: &mut Tape) -> Option<(Vec<u8>, u
     }
     let ob = orig.ip.as_ref().unwrap();
     match lenient_decode(medium, &c) {
+        // random flips that happen to zero a UDP-over-IPv6 checksum field are the targeted class 4
+        Err(LenientErr::Checksum) if c.len() >= l2 + 48 && c[l2] >> 4 == 6 && c[l2 + 6] == codec::P_UDP && c[l2 + 46] == 0 && c[l2 + 47] == 0 => Some((c, 4)),
         Err(LenientErr::Checksum) => Some((c, 1)),
         Err(LenientErr::Structure) => Some((c, 2)),
         Ok(l) => {
